@@ -9,7 +9,7 @@ import sys
 
 import z3
 
-from . import symmath
+from . import shapely_lite, symmath
 from .core import Sym, SymBool, SymInt, SymNum, SymReal, Unsupported, ctx
 from .npx import npx
 
@@ -113,9 +113,15 @@ def install(extra_numbers=True):
         d["round"] = sym_round
         if "math" in d:
             d["math"] = symmath
+        if "shapely" in d and getattr(d["shapely"], "__name__", "") == "shapely":
+            d["shapely"] = shapely_lite.shapely
+        if "ShapelyPolygon" in d:
+            d["ShapelyPolygon"] = shapely_lite.Polygon
+        if "ShapelyPoint" in d:
+            d["ShapelyPoint"] = shapely_lite.Point
         for alias in ("np", "npy", "numpy"):
             if alias in d and getattr(d[alias], "__name__", "") == "numpy":
                 d[alias] = npx
         n += 1
-    INSTALLED.append(f"isinstance/float/int/round/math/np shadowed in {n} commonroad modules")
+    INSTALLED.append(f"isinstance/float/int/round/math/np/shapely shadowed in {n} commonroad modules (shapely -> shapely-lite)")
     return n
